@@ -190,6 +190,9 @@ def export_far_zones(ctx):
     return None
 
 
+for _p in ("C11",):
+    PROPS[_p]["pre"] = [export_zones]
+
 PROPS["C13"] = {
     "builds": ["chk", "rel"],
     "pre": [export_zones],
@@ -355,6 +358,7 @@ def harvest_replay(ctx, r):
 
 
 PROPS["C03"] = {
+    "pre": [export_zones],
     "builds": ["chk"],
     "legs": [harvest_leg],
     "replay": harvest_replay,
@@ -375,6 +379,7 @@ PROPS["C03"] = {
 }
 
 PROPS["C19"] = {
+    "pre": [export_zones],
     "builds": ["chk", "rel"],
     "rule": ("seeded cases over ten scenarios; FFI layer (temporal_capi called from Rust, values observed through its own accessors): PlainTime, PlainDate (+ the Calendar object's "
              "per-date accessors, date_from_partial / year_month_from_partial / month_day_from_partial / date_add / date_until), PlainDateTime, Duration / TimeDuration / DateDuration / "
